@@ -271,11 +271,11 @@ def oracle_file(case, obs):
 CHECK = Check(
     id="C05",
     title="Ancestry lookup returns the covering block's label; .bp files round-trip",
-    theorems=["C05.find_first_ge", "C05.find_rejects", "C05.absent_chromosome_rejected", "C05.recode_encode", "C05.encoded_codes_injective", "C05.encoder_keeps_given_order", "C05.parse_render"],
+    theorems=["C05.find_first_ge", "C05.find_rejects", "C05.absent_chromosome_rejected", "C05.population_array_cells", "C05.population_array_unknown_sample", "C05.recode_encode", "C05.encoded_codes_injective", "C05.encoder_keeps_given_order", "C05.parse_render"],
     sections=[
         Section(
             name="lookup_encode",
-            theorems=["C05.find_first_ge", "C05.find_rejects", "C05.absent_chromosome_rejected", "C05.recode_encode", "C05.encoded_codes_injective", "C05.encoder_keeps_given_order"],
+            theorems=["C05.find_first_ge", "C05.find_rejects", "C05.absent_chromosome_rejected", "C05.population_array_cells", "C05.population_array_unknown_sample", "C05.recode_encode", "C05.encoded_codes_injective", "C05.encoder_keeps_given_order"],
             gen=gen_lookup,
             impl=impl_lookup,
             model_req=model_req_lookup,
